@@ -61,6 +61,13 @@ func (c *Context) VerifHandleTransaction(tx abci.TxResult) { handleTransaction(c
 // VerifHandleRequest runs the real request handler (as the start-up scan of pending requests does).
 func (c *Context) VerifHandleRequest(id types.RequestID) { handleRequest(c, verifLogger(), id) }
 
+// VerifStartupPending does for one request what the start-up scan in runImpl (run.go) does for every id the node reports as
+// pending for this validator: mark it as pending, then hand it to the request handler. The caller starts it as a goroutine.
+func (c *Context) VerifStartupPending(id types.RequestID) {
+	c.pendingRequests[id] = true
+	handleRequest(c, verifLogger(), id)
+}
+
 // VerifPendingMsgs exposes the channel the handlers queue reports on.
 func (c *Context) VerifPendingMsgs() <-chan ReportMsgWithKey { return c.pendingMsgs }
 
